@@ -4,6 +4,7 @@ Deductive (ropes of literals and opaque atoms, contracts/ropes.py):
   * the real Filter.parse_topics / Filter.parse_options are the inverse of rendering: parse(render(x)) == x for lists of 0..3 entries;
   * the real Filter.normalize_config (base filter): normalising the result again returns an equal configuration, and the comma-text form
     normalises to the same result as the list form.
+  * the real normalize_config of VideoIn, ImageIn, VideoOut, ImageOut and Recorder (calling the real base one and the real parsers): idempotent; text == list == records.
 Bounded (labelled, never counted as proved): the ten filter classes natively on configurations generated from their documented grammar.
 """
 import ast, itertools
@@ -25,9 +26,10 @@ TRUSTED = ['PyVC executor (DESIGN 2.3), z3 5.1.0 / cvc5 (string/regex queries of
            'json_getval(render(v)) == v for JSON values and json_getval(s) == s for text that is not JSON (T4)', 'MQ.LOG_MAP is read from the real class']
 ASSUMPTIONS = ['atoms (topic names, option names, addresses, values) contain no separator characters of the configuration grammar and no edge whitespace; option names match [a-zA-Z_]\\w*',
                'list lengths 0..3 for topic mappings / options / sources (entries symbolic)',
-               'only the base Filter class and the two parsers are decided deductively; the other nine classes are covered by the bounded native check (labelled bounded)',
+               'decided deductively: the two parsers, the base Filter class, VideoIn, ImageIn, VideoOut, ImageOut (1..2 entries with topic / flag / no-flag / name=json options, text vs list of strings vs list of records) and Recorder (output options, 0..2 rules); Util, MQTTOut, REST, Webvis are covered by the bounded native check only (labelled bounded)',
+               'endpoint units: is_video_* / is_file / parse_segtime / dict_without / once by assumed contracts; configuration classes (adict subclasses) are records tagged with their class',
                'REST endpoint paths starting with "//" are outside the documented grammar (stripping one leading "/" per pass is not idempotent there)']
-UNDECIDED_CLAUSES = ['idempotence and text==structured form of Util, Recorder, VideoIn, VideoOut, ImageIn, ImageOut, MQTTOut, REST, Webvis: bounded native check only']
+UNDECIDED_CLAUSES = ['idempotence and text==structured form of Util, MQTTOut, REST, Webvis: bounded native check only; unknown-option handling of VideoOut (moved to params) / ImageOut (dropped) is not in the shapes']
 EXPLANATION = 'Real parsers and the real base normalize_config executed on rope-shaped inputs; results compared structurally with symbolic atoms.'
 
 
@@ -425,6 +427,279 @@ class BaseNormalizeUnit(Unit):
         return native_bounded(classes=('Filter',))
 
 
+# ------------------------------------------------------------------------------------------------ endpoint filters (VideoIn, ImageIn, VideoOut, ImageOut)
+FDIR = 'openfilter/filter_runtime/filters/'
+ENDPOINTS = {
+    # class: (file, config class, list key, item class, item key, flag option, no-flag option, json option, the other list key)
+    'VideoIn': (FDIR + 'video_in.py', 'VideoInConfig', 'sources', 'Source', 'source', 'loop', 'sync', 'maxfps', 'outputs'),
+    'ImageIn': (FDIR + 'image_in.py', 'ImageInConfig', 'sources', 'Source', 'source', 'loop', 'recursive', 'maxfps', 'outputs'),
+    'VideoOut': (FDIR + 'video_out.py', 'VideoOutConfig', 'outputs', 'Output', 'output', 'bgr', 'bgr', 'fps', 'sources'),
+    'ImageOut': (FDIR + 'image_out.py', 'ImageOutConfig', 'outputs', 'Output', 'output', 'bgr', 'bgr', 'quality', 'sources'),
+}
+
+
+class CfgCls:
+    """a configuration class (adict subclass): calling it builds a record of that kind from a dict / record / pairs / keywords; nested classes are attributes"""
+    @staticmethod
+    def op_call(ex, o, *a, **kw):
+        d = {}
+        if a and a[0] is not None:
+            src = a[0]
+            if isinstance(src, Obj) and 'kv' in src.f:
+                d.update(src.f['kv'])
+            elif isinstance(src, dict):
+                d.update(src)
+            else:
+                for k, v in ex.iterate(src):
+                    d[k] = v
+        d.update(kw)
+        r = adict(**d)
+        r.f['_kind'] = o.f['kind']
+        return r
+
+    @staticmethod
+    def getattr(ex, o, name):
+        return o.f['nested'].get(name, NOTHANDLED)
+
+
+def cfg_isinstance(ex, v, t):
+    if isinstance(t, Obj) and t.cls == 'cfgcls':
+        return isinstance(v, Obj) and v.cls == 'adict' and (v.f.get('_kind') == t.f['kind'] or t.f['kind'] in t.f['ancestors_of'].get(v.f.get('_kind'), ()))
+    return NOTHANDLED
+
+
+class EndpointNormalizeUnit(Unit):
+    """the real normalize_config of the four endpoint filters (and through super() the real base one, the real parse_topics / parse_options): idempotent, and the text form, the
+    list-of-strings form and the list-of-records form normalise to the same configuration"""
+    required_covers = ('normalised twice',)
+    bounded = {'entries in the endpoint list': '1..2', 'options per entry': '0..1 of each kind (flag, no-flag, name=json)'}
+
+    def __init__(self, cls_name):
+        self.cls_name = cls_name
+        rel = ENDPOINTS[cls_name][0]
+        self.name = f'{cls_name}.normalize_config: idempotence and text == structured'
+        self.targets = (f'{rel}::{cls_name}.normalize_config', f'{FILTER}::Filter.normalize_config', f'{FILTER}::Filter.parse_topics', f'{FILTER}::Filter.parse_options')
+        self.mutants = (
+            (f'{cls_name}: default topic not filled in', f'{rel}::{cls_name}.normalize_config', "topic = 'main'", "topic = None", 'C11.'),
+            (f'{cls_name}: options of a text entry dropped', f'{rel}::{cls_name}.normalize_config', '.Options(options))', '.Options())', 'C11.text_equals_struct'),
+        )
+
+    def shapes(self, tier):
+        ok = ((), ('flag',), ('noflag',), ('json',), ('flag', 'json'))
+        out = []
+        for n in (1, 2):
+            for topics in itertools.product((False, True), repeat=n):
+                for opts in itertools.product(ok if n == 1 or tier != 'quick' else ok[:3], repeat=n):
+                    for ws in (False, True):
+                        out.append((n, topics, opts, ws))
+        return out
+
+    def build(self, ex, shape, form):
+        rel, cfgname, key, itemcls, itemkey, oflag, onoflag, ojson, other = ENDPOINTS[self.cls_name]
+        n, topics, opts, ws = shape
+        sp = ' ' if ws else ''
+        items_text, items_rec = [], []
+        for i in range(n):
+            addr = Atom(f'uri{i}', 'addr')
+            parts = [addr]
+            o = {}
+            for k in opts[i]:
+                parts.append(sp + '!' + sp)
+                if k == 'flag':
+                    parts.append(oflag)
+                    o[oflag] = True
+                elif k == 'noflag':
+                    parts += ['no-', onoflag]
+                    o[onoflag] = False
+                else:
+                    val = self.jsonvals[i]
+                    parts += [ojson, '=', Atom(f'json{i}', 'json', val)]
+                    o[ojson] = val
+            t = None
+            if topics[i]:
+                t = Atom(f'topic{i}', 'name')
+                parts += [sp + ';' + sp, t]
+            items_text.append(rope(*parts))
+            rec = {itemkey: rope(addr)}
+            if t is not None:
+                rec['topic'] = rope(t)
+            if o:
+                rec['options'] = dict(o)
+            items_rec.append(rec)
+        kv = {'id': rope(Atom('the_id', 'name')), other: [rope(Atom('other_addr', 'addr'))]}
+        if form == 'text':
+            kv[key] = R.simplify(rope(*[x for i, it in enumerate(items_text) for x in ((',' + sp if i else ''), it)]))
+        elif form == 'strings':
+            kv[key] = list(items_text)
+        else:
+            kv[key] = [adict(**{k: (adict(**v) if isinstance(v, dict) else v) for k, v in r.items()}) for r in items_rec]
+        o = adict(**kv)
+        o.f['_kind'] = 'dict'
+        return o
+
+    def run(self, shape, dec):
+        rel, cfgname, key, itemcls, itemkey, oflag, onoflag, ojson, other = ENDPOINTS[self.cls_name]
+        ex = new_exec(dec, [FILTER, UTILS, rel])
+        setup(ex)
+        register_class(ex, rel, self.cls_name, bases=('Filter',))
+        ex.models['cfgcls'] = CfgCls
+        ex.isinstance_hook = cfg_isinstance
+        anc = {cfgname: ('FilterConfig',)}
+        opts_cls = Obj('cfgcls', kind=f'{cfgname}.{itemcls}.Options', nested={}, ancestors_of=anc)
+        item_cls = Obj('cfgcls', kind=f'{cfgname}.{itemcls}', nested={'Options': opts_cls}, ancestors_of=anc)
+        cfg_cls = Obj('cfgcls', kind=cfgname, nested={itemcls: item_cls}, ancestors_of=anc)
+        fc_cls = Obj('cfgcls', kind='FilterConfig', nested={}, ancestors_of=anc)
+        mq_mod = extract.load('openfilter/filter_runtime/mq.py')
+        log_map = eval(compile(ast.Expression(mq_mod.find('MQ.<assign LOG_MAP>')), '<LOG_MAP>', 'eval'))
+
+        def dict_without(ex_, d, without):
+            # utils.dict_without: same class, without the named key(s)      # TRUSTED: small utility, modelled
+            w = {without} if isinstance(without, str) else set(without)
+            r = adict(**{k: v for k, v in d.f['kv'].items() if k not in w})
+            r.f['_kind'] = d.f.get('_kind')
+            return r
+        self.jsonvals = [Obj('jsonvalue', n=i) for i in range(shape[0])]
+        for g in ex.modules.values():
+            g.update(FilterConfig=fc_cls, split_commas_maybe=closure(UTILS, 'split_commas_maybe'), MQ=Obj('MQcls', LOG_MAP=log_map), Filter=ClassRef('Filter'),
+                     parse_time_interval=Native(lambda ex_, s: 90, 'parse_time_interval'), parse_date_and_or_time=Native(lambda ex_, s, *a: Obj('dt'), 'parse_date_and_or_time'),
+                     dict_without=Native(dict_without, 'dict_without'), logger=None, once=Native(lambda ex_, *a, **k: None, 'once'),
+                     is_video_or_cached_file=Native(lambda ex_, s: True, 'is_video_or_cached_file'), is_video_file=Native(lambda ex_, s: True, 'is_video_file'),
+                     is_file=Native(lambda ex_, s: True, 'is_file'), parse_segtime=Native(lambda ex_, s: 60, 'parse_segtime'), **{cfgname: cfg_cls})
+        norm = lambda c: ex.call_value(ex.getattr(ClassRef(self.cls_name), 'normalize_config'), [c], {})
+        ex.replay_info = dict(shape=[list(x) if isinstance(x, tuple) else x for x in shape], cls=self.cls_name)
+        names = [Atom(f'topic{i}', 'name') for i in range(shape[0])]
+        try:
+            # precondition: the configuration is valid (topics pairwise different, none of them spells the default topic of an entry without a topic)
+            t_text = self.build(ex, shape, 'text')
+            tz = [z3.String(f'topic{i}') for i in range(shape[0]) if shape[1][i]]
+            for a, b in itertools.combinations(tz, 2):
+                ex.assume(a != b)
+            if not all(shape[1]):
+                for a in tz:
+                    ex.assume(a != z3.StringVal('main'))
+            if shape[1].count(False) > 1:
+                ex.outcome = 'invalid'
+                return ex          # two entries on the default topic: not a valid configuration
+            n1 = norm(t_text)
+            n2 = norm(n1)
+            ns = norm(self.build(ex, shape, 'strings'))
+            nr = norm(self.build(ex, shape, 'records'))
+        except ExcSig as e:
+            ex.outcome = f'raise {e.cls}'
+            ex.oblige(f'C11.no_failure: {self.cls_name}.normalize_config rejects a valid configuration ({e.origin})', False)
+            return ex
+        ex.outcome = 'return'
+        ex.cover('normalised twice')
+        c = self.cls_name
+        ex.oblige(f'C11.idempotent({c}): normalising an already normalised configuration returns an equal configuration', zb(ex.eq(n2, n1)))
+        ex.oblige(f'C11.text_equals_struct({c}): the comma-text form normalises to the same result as the list of strings', zb(ex.eq(n1, ns)))
+        ex.oblige(f'C11.text_equals_struct({c}): ... and as the list of records the documentation declares equivalent', zb(ex.eq(n1, nr)))
+        items = n1.f['kv'].get(key)
+        ex.oblige(f'C11.normal_form({c}): every entry is a record with a topic and an options record',
+                  isinstance(items, list) and len(items) == shape[0] and all(isinstance(it, Obj) and it.f.get('_kind') == f'{cfgname}.{itemcls}' and it.f['kv'].get('topic') is not None
+                                                                               and isinstance(it.f['kv'].get('options'), Obj) and it.f['kv']['options'].f.get('_kind') == f'{cfgname}.{itemcls}.Options' for it in items))
+        return ex
+
+    def replay(self, failure):
+        return native_bounded(classes=(self.cls_name,))
+
+
+class RecorderNormalizeUnit(Unit):
+    """the real Recorder.normalize_config (base normalize_config and parse_options through it): idempotent; text form == list form for the output and the rules"""
+    name = 'Recorder.normalize_config: idempotence and text == structured'
+    RELP = FDIR + 'recorder.py'
+    targets = (f'{FDIR}recorder.py::Recorder.normalize_config',)
+    required_covers = ('normalised twice',)
+    bounded = {'rules': '0..2 (include / exclude / plain, with 0..2 path keys)', 'output options': '0..1 of each kind'}
+    mutants = (
+        ('Recorder: exclude rules parsed as include', f'{FDIR}recorder.py::Recorder.normalize_config', 'top_n_path, add = rule[1:], False', 'top_n_path, add = rule[1:], True', 'C11.'),
+        ('Recorder: rules re-derived from the derived table', f'{FDIR}recorder.py::Recorder.normalize_config', "config.rules  = split_commas_maybe(config.rules) or ['+', '-/meta/ts']", "config.rules  = split_commas_maybe(config.rules) or ['+', '-/meta/ts']\n        config.rules = config.rules + ['+']", 'C11.idempotent'),
+    )
+
+    def shapes(self, tier):
+        rk = ('plus', 'minus', 'plain', 'minuspath', 'rootpath')
+        out = []
+        for opts in ((), ('flag',), ('noflag',), ('json',)):
+            for nr in (0, 1, 2):
+                for rules in itertools.product(rk, repeat=nr):
+                    if tier == 'quick' and nr == 2 and opts:
+                        continue
+                    for ws in (False, True):
+                        out.append((opts, rules, ws))
+        return out
+
+    def build(self, ex, shape, form):
+        opts, rules, ws = shape
+        sp = ' ' if ws else ''
+        parts = [Atom('file_uri', 'addr')]
+        for k in opts:
+            parts.append(sp + '!' + sp)
+            if k == 'flag':
+                parts.append('append')
+            elif k == 'noflag':
+                parts += ['no-', 'append']
+            else:
+                parts += ['other', '=', Atom('json0', 'json', self.jsonval)]
+        out_text = rope(*parts)
+        rtexts = []
+        for i, k in enumerate(rules):
+            t, a, b = Atom(f'rt{i}', 'name'), Atom(f'rk{i}a', 'name'), Atom(f'rk{i}b', 'name')
+            rtexts.append({'plus': rope('+', t), 'minus': rope('-', t), 'plain': rope(t, '/', a), 'minuspath': rope('-', t, '/', a, '/', b), 'rootpath': rope('-/', a)}[k])
+        kv = {'id': rope(Atom('the_id', 'name')), 'sources': [rope(Atom('src_addr', 'addr'))]}
+        kv['outputs'] = out_text if form == 'text' else [out_text]
+        if rules:
+            kv['rules'] = R.simplify(rope(*[x for i, r in enumerate(rtexts) for x in ((',' + sp if i else ''), r)])) if form == 'text' else list(rtexts)
+        o = adict(**kv)
+        o.f['_kind'] = 'dict'
+        return o
+
+    def run(self, shape, dec):
+        rel = self.RELP
+        ex = new_exec(dec, [FILTER, UTILS, rel])
+        setup(ex)
+        register_class(ex, rel, 'Recorder', bases=('Filter',))
+        ex.models['cfgcls'] = CfgCls
+        ex.isinstance_hook = cfg_isinstance
+        anc = {'RecorderConfig': ('FilterConfig',)}
+        cfg_cls = Obj('cfgcls', kind='RecorderConfig', nested={}, ancestors_of=anc)
+        fc_cls = Obj('cfgcls', kind='FilterConfig', nested={}, ancestors_of=anc)
+        mq_mod = extract.load('openfilter/filter_runtime/mq.py')
+        log_map = eval(compile(ast.Expression(mq_mod.find('MQ.<assign LOG_MAP>')), '<LOG_MAP>', 'eval'))
+
+        def dict_without(ex_, d, without):
+            w = {without} if isinstance(without, str) else set(without)
+            r = adict(**{k: v for k, v in d.f['kv'].items() if k not in w})
+            r.f['_kind'] = d.f.get('_kind')
+            return r
+        self.jsonval = Obj('jsonvalue', n=0)
+        for g in ex.modules.values():
+            g.update(FilterConfig=fc_cls, RecorderConfig=cfg_cls, split_commas_maybe=closure(UTILS, 'split_commas_maybe'), MQ=Obj('MQcls', LOG_MAP=log_map), Filter=ClassRef('Filter'),
+                     parse_time_interval=Native(lambda ex_, s: 90, 'parse_time_interval'), parse_date_and_or_time=Native(lambda ex_, s, *a: Obj('dt'), 'parse_date_and_or_time'),
+                     dict_without=Native(dict_without, 'dict_without'), logger=None, is_file=Native(lambda ex_, s: True, 'is_file'))
+        norm = lambda c: ex.call_value(ex.getattr(ClassRef('Recorder'), 'normalize_config'), [c], {})
+        ex.replay_info = dict(shape=[list(x) if isinstance(x, tuple) else x for x in shape], cls='Recorder')
+        try:
+            n1 = norm(self.build(ex, shape, 'text'))
+            n2 = norm(n1)
+            ns = norm(self.build(ex, shape, 'struct'))
+        except ExcSig as e:
+            ex.outcome = f'raise {e.cls}'
+            ex.oblige(f'C11.no_failure: Recorder.normalize_config rejects a valid configuration ({e.origin})', False)
+            return ex
+        ex.outcome = 'return'
+        ex.cover('normalised twice')
+        ex.oblige('C11.idempotent(Recorder): normalising an already normalised configuration returns an equal configuration', zb(ex.eq(n2, n1)))
+        ex.oblige('C11.text_equals_struct(Recorder): the text form (output, comma list of rules) normalises to the same result as the list form', zb(ex.eq(n1, ns)))
+        rules_tab = n1.f['kv'].get('_rules')
+        want_n = len(shape[1]) or 2
+        ex.oblige('C11.normal_form(Recorder): one (include?, topic, path) entry per rule, exclude rules marked as such',
+                  isinstance(rules_tab, list) and len(rules_tab) == want_n and (not shape[1] or all((r[0] is False) == (k in ('minus', 'minuspath', 'rootpath')) for r, k in zip(rules_tab, shape[1]))))
+        return ex
+
+    def replay(self, failure):
+        return native_bounded(classes=('Recorder',))
+
+
 def _mk_fc(ex, d):
     if isinstance(d, Obj) and d.cls == 'adict':
         d = d.f['kv']
@@ -503,4 +778,4 @@ def extra_checks(tier, seed, pool):
     return out
 
 
-UNITS = [ParserInverseUnit(), BaseNormalizeUnit()]
+UNITS = [ParserInverseUnit(), BaseNormalizeUnit()] + [EndpointNormalizeUnit(c) for c in ('VideoIn', 'ImageIn', 'VideoOut', 'ImageOut')] + [RecorderNormalizeUnit()]
